@@ -408,7 +408,7 @@ fn run_stress(t: &mut Tape, cx: &mut Cx) -> Result<(), String> {
 fn run_lock_hist(t: &mut Tape, cx: &mut Cx) -> Result<(), String> {
     use vm_memory::atomic::GuestMemoryExclusiveGuard;
     let n = t.below(4) as usize;
-    let steps: Vec<u64> = (0..n).map(|_| t.below(4)).collect();
+    let steps: Vec<u64> = (0..n).map(|_| t.below(5)).collect();
     // one handle only, shared by reference, unless a step clones it
     let mut handles = vec![GuestMemoryAtomic::new(Map::from_arc_regions(vec![mk_region(0x1000, 1)?]).map_err(|e| format!("{:?}", e))?)];
     let mut expected: Vec<u64> = vec![0x1000];
@@ -421,7 +421,7 @@ fn run_lock_hist(t: &mut Tape, cx: &mut Cx) -> Result<(), String> {
         }
     }
     let starts = |h: &GuestMemoryAtomic<Map>| -> Vec<u64> { h.memory().iter().map(|r| r.start_addr().0).collect() };
-    let names = ["update", "lock and give up", "updater dies holding the lock", "clone handle"];
+    let names = ["update", "lock and give up", "updater dies holding the lock", "clone handle", "publish the empty map"];
     note!(cx, "steps {:?}", steps.iter().map(|s| names[*s as usize]).collect::<Vec<_>>());
     for (i, s) in steps.iter().enumerate() {
         let hi = (i + *s as usize) % handles.len();
@@ -451,6 +451,14 @@ fn run_lock_hist(t: &mut Tape, cx: &mut Cx) -> Result<(), String> {
                 });
                 ensure!(died, "HARNESS-PANIC: the dying updater did not die");
                 cx.nt("updater_died_holding_the_lock");
+            }
+            4 => {
+                // a map without regions is a legitimate map (e.g. after the last region was removed)
+                let h = &handles[hi];
+                let g = take(h);
+                g.replace(Map::new());
+                expected.clear();
+                cx.nt("empty_map_published");
             }
             _ => {
                 let c = handles[hi].clone();
@@ -494,11 +502,11 @@ fn run_lock_hist(t: &mut Tape, cx: &mut Cx) -> Result<(), String> {
 
 fn gen_lock_hist(_t: Tier) -> Box<dyn Iterator<Item = Vec<u64>>> {
     let mut v: Vec<Vec<u64>> = vec![vec![0]];
-    for a in 0..4u64 {
+    for a in 0..5u64 {
         v.push(vec![1, a]);
-        for b in 0..4u64 {
+        for b in 0..5u64 {
             v.push(vec![2, a, b]);
-            for c in 0..4u64 {
+            for c in 0..5u64 {
                 v.push(vec![3, a, b, c]);
             }
         }
